@@ -221,3 +221,19 @@ def canary_merge_keeps_larger():
 
 
 R.canaries.append(("graph.py:canary#merge-representative-is-maximum", canary_merge_keeps_larger))
+
+
+# ---- client lemmas over the contracts (histories): what a caller observes after a merge
+R.client_lemmas["L#merge-then-find"] = '''
+def merged_then_found(self, x, y, z):
+    self.merge(x, y)
+    a = self.find(x)
+    b = self.find(y)
+    c = self.find(z)
+    return (a, b, c)
+'''
+R.contract("L#merge-then-find", params={"self": REF("ComponentFinder"), "x": INT, "y": INT, "z": INT}, returns=TUPLE(INT, INT, INT),
+           requires=[("wf", "WF(self)"), ("present", "x in self.nodes and y in self.nodes and z in self.nodes"), ("distinct", "x != y")],
+           ensures=[("merged-values-share-the-smaller-representative", "result[0] == result[1] and result[0] == min(old(rep(self, x)), old(rep(self, y)))"),
+                    ("a-third-value-moves-only-with-its-class", "result[2] == ite(old(rep(self, z)) == old(rep(self, x)) or old(rep(self, z)) == old(rep(self, y)), result[0], old(rep(self, z)))")],
+           modifies=["Node.parent"], props=P)
